@@ -486,6 +486,72 @@ META = {
                         'answers every later call',
                   strengthened='C19 slows the statements of memoising accessors through sys.monitoring so that the '
                                'limit lands inside them, then compares with an undisturbed equal object'),
+    # ---- sixth round ----
+    'C01-f': dict(breaks='C01 (through the on-disk matrix cache)', file='adsg_core/optimization/assign_enc/matrix.py (MatrixGenSettings.get_cache_key)',
+                  change='the excluded pairs enter the cache key as node labels ("src,tgt" of the Node reprs, which only show '
+                         'degrees) instead of as index pairs',
+                  needs='two connection problems in one cache directory that differ only in WHICH pair is excluded, with '
+                        'equal degrees on the nodes involved: the second one decodes excluded connections',
+                  strengthened=None),
+    'C03-f': dict(breaks='C03', file='adsg_core/optimization/assign_enc/lazy/imputation/delta.py (LazyDeltaImputer)',
+                  change='the delta imputer returns the vector it tried, not the vector the decoder corrected it to',
+                  needs='a connection choice handled by a lazy encoder with delta imputation (no pattern match, many '
+                        'matrices) and a vector that needs imputation',
+                  strengthened=None),
+    'C04-f': dict(breaks='C04 (through the on-disk matrix cache)', file='adsg_core/optimization/assign_enc/matrix.py (MatrixGenSettings.get_cache_key)',
+                  change='source nodes enter the cache key by str() (degrees only) instead of repr() (degrees and repeatability)',
+                  needs='two problems in one cache directory that differ only in whether a source accepts parallel edges',
+                  strengthened=None),
+    'C05-f': dict(breaks='C05', file='adsg_core/optimization/hierarchy/complete.py (fixed-value combination mask)',
+                  change='the combination set of two simultaneously fixed choices is intersected IN PLACE, which edits the '
+                         'memoised set of an iteration spec',
+                  needs='two selection variables fixed at the same time on the COMPLETE encoder, then one freed again: '
+                        'decodes differ from a fresh processor with the same fixed values',
+                  strengthened=None),
+    'C07-f': dict(breaks='C07', file='adsg_core/optimization/assign_enc/enumerating/recursive.py (EnumRecursiveEncoder._decode)',
+                  change='an out-of-range vector is corrected to the recomputed base-n digits of the last matrix index, '
+                         'without the inactive-variable marking of the stored last vector',
+                  needs='the recursive enumerating encoder (never auto-selected for small problems) and a vector beyond the '
+                        'last matrix whose last valid design has inactive variables',
+                  strengthened=None),
+    'C09-f': dict(breaks='C09', file='adsg_core/optimization/assign_enc/matrix.py (MatrixGenSettings.get_max_conn_parallel)',
+                  change='the scan for the largest finite degree stops at the first open-ended node of a side',
+                  needs='a repeated-allowed open-ended connector listed BEFORE a connector with a finite degree above 2',
+                  strengthened=None),
+    'C11-f': dict(breaks='C11', file='adsg_core/graph/adsg_nodes.py (ConnectionChoiceNode existence patterns)',
+                  change='a new existence pattern is numbered by the scenario index instead of by its position in the '
+                         'pattern list',
+                  needs='two existence scenarios with the same connector-existence pattern followed by a different one '
+                        '(e.g. a grouping connector with the same member count under two options)',
+                  strengthened=None),
+    'C12-f': dict(breaks='C12', file='adsg_core/optimization/assign_enc/lazy_encoding.py (LazyEncoder.set_settings)',
+                  change='a one-valued design variable is reported with ValueError instead of RuntimeError, which the '
+                         'selector does not treat as "candidate rejects these settings"',
+                  needs='settings a pattern / lazy candidate recognises but can only code with a one-valued variable: one '
+                        'open-ended node against a node that needs exactly 1 and nodes that take 0..1; selection not cached',
+                  strengthened='C12 family pass: a deterministic family of nearly degenerate settings (one open-ended node '
+                               'against 2-3 almost pinned ones, both orientations) selected with a cold cache'),
+    'C15-f': dict(breaks='C15', file='adsg_core/optimization/graph_processor.py (fix_des_var)',
+                  change='the previous fixed value is removed before the new value is validated',
+                  needs='an out-of-range re-fix of a variable that is ALREADY fixed: the rejection leaves it un-fixed',
+                  strengthened='C15 rejections are repeated on an already-fixed variable (fixed values and listed '
+                               'variables must survive)'),
+    'C16-f': dict(breaks='C16', file='adsg_core/optimization/graph_processor.py (all_des_var_idx_map)',
+                  change='the memoised index map is built from the currently free variables instead of all variables',
+                  needs='a variable fixed on a fresh processor BEFORE the map is first used (before the first decode)',
+                  strengthened='C16 fixes one selection variable (to a value some architecture takes) on a third of the '
+                               'fresh processors before anything is decoded; C15 caught it from the start'),
+    'C17-f': dict(breaks='C17', file='adsg_core/optimization/graph_processor.py (_categorize_metrics)',
+                  change='the ambiguity check is skipped whenever the metric node states any type, also OBJ_OR_CON',
+                  needs='a permanent metric with direction and reference declared type_=MetricType.OBJ_OR_CON: becomes an '
+                        'objective silently instead of being rejected as ambiguous',
+                  strengthened='C17 generator declares OBJ_OR_CON on a fifth of the undeclared metrics (same expected '
+                               'roles as undeclared)'),
+    'C20-f': dict(breaks='C20', file='adsg_core/graph/sup/dsg.py (SupDSG.initialize_choices)',
+                  change='duplicates are detected per (choice, mapping object) pair, so two different mappings of the same '
+                         'supplementary choice pass',
+                  needs='a supplementary choice mapped twice with different mapping objects',
+                  strengthened=None),
 }
 
 
